@@ -26,6 +26,21 @@ Proof. apply bytes_eqb_eq. Qed.
 Lemma negb_beq_false a b : negb (bytes_eqb a b) = false -> a = b.
 Proof. intro E. apply negb_false_iff in E. apply beq_true; exact E. Qed.
 
+Lemma psh_eqb_eq a b : psh_eqb a b = true <-> a = b.
+Proof.
+  unfold psh_eqb. destruct a as [ta ha], b as [tb hb]; cbn. split.
+  - intro E. apply andb_true_iff in E as [E1 E2]. apply Z.eqb_eq in E1. apply beq_true in E2. congruence.
+  - intro E. injection E as -> ->. rewrite Z.eqb_refl, bytes_eqb_refl. reflexivity.
+Qed.
+
+(* BlockID.Equals with the verified commit's BlockID *)
+Lemma id_matches_eq l ih ip : id_matches l ih ip = true <-> ih = lb_id_hash l /\ ip = lb_id_parts l.
+Proof.
+  unfold id_matches. rewrite andb_true_iff, psh_eqb_eq. split; intros [A B]; split; auto.
+  - apply beq_true; exact A.
+  - rewrite A. apply bytes_eqb_refl.
+Qed.
+
 Ltac brk :=
   repeat match goal with
   | H : context [if ?c then _ else _] |- _ => destruct c eqn:?; try discriminate H
@@ -82,14 +97,23 @@ Definition Consistent_block (o : oracle) (r : rblock) : Prop :=
     hh (b_header b) = hh (lb_header l) /\ rb_id_hash r = hh (lb_header l) /\
     h_data_hash (b_header b) = txs_root H (b_txs b) /\
     h_last_commit_hash (b_header b) = b_lc_hash b /\
-    h_evidence_hash (b_header b) = b_ev_hash b.
+    h_evidence_hash (b_header b) = b_ev_hash b /\
+    (* repair F44: the whole BlockID is the one the verified commit is for *)
+    rb_id_hash r = lb_id_hash l /\ rb_id_parts r = lb_id_parts l.
 
 Lemma relay_block_sound o r : snd (relay_block H hh o r) = true -> Consistent_block o r.
 Proof.
-  unfold relay_block. intro R. brk.
-  unfold block_validate_basic in *. brk. cbn in R.
+  unfold relay_block. intro R.
+  destruct (rb_id_ok r); cbn [negb] in R; [| discriminate].
+  destruct (rb_block r) as [b|] eqn:Eb; [| discriminate].
+  destruct (block_validate_basic H b) eqn:Ev; cbn [negb] in R; [| discriminate].
+  destruct (bytes_eqb (rb_id_hash r) (hh (b_header b))) eqn:Ei; cbn [negb] in R; [| discriminate].
+  destruct (o_verify o (h_height (b_header b))) as [l|] eqn:El; [| discriminate]. cbn [snd] in R.
+  destruct (bytes_eqb (hh (b_header b)) (hh (lb_header l))) eqn:Eh; cbn [negb] in R; [| discriminate].
+  apply id_matches_eq in R as [R1 R2]. apply beq_true in Ei, Eh.
+  unfold block_validate_basic in Ev. brk.
   exists b, l. repeat split; auto using negb_beq_false, beq_true.
-  apply negb_beq_false in Heqb1. rewrite Heqb1. apply beq_true; exact R.
+  rewrite Ei; exact Eh.
 Qed.
 
 (* the relayed block carries the verified header itself and exactly the transactions that
@@ -111,6 +135,7 @@ Qed.
 Definition Honest_block (l : lblock) (r : rblock) : Prop :=
   exists b, rb_block r = Some b /\ b_header b = lb_header l /\
     rb_id_ok r = true /\ rb_id_hash r = hh (lb_header l) /\
+    rb_id_hash r = lb_id_hash l /\ rb_id_parts r = lb_id_parts l /\
     b_hdr_ok b = true /\ b_lc_ok b = true /\ b_ev_ok b = true /\
     h_last_commit_hash (b_header b) = b_lc_hash b /\
     h_data_hash (b_header b) = txs_root H (b_txs b) /\
@@ -120,39 +145,46 @@ Lemma relay_block_complete o l r :
   Honest_block l r -> o_verify o (h_height (lb_header l)) = Some l ->
   snd (relay_block H hh o r) = true.
 Proof.
-  intros (b & Eb & Eh & Eok & Eid & E1 & E2 & E3 & E4 & E5 & E6) Ho.
+  intros (b & Eb & Eh & Eok & Eid & Eih & Eip & E1 & E2 & E3 & E4 & E5 & E6) Ho.
   unfold relay_block. rewrite Eok, Eb; cbn [negb].
   unfold block_validate_basic. rewrite E1, E2, E3, E4, E5, E6. rewrite !bytes_eqb_refl. cbn [negb].
-  rewrite Eid, Eh, bytes_eqb_refl. cbn [negb]. rewrite Ho. cbn. apply bytes_eqb_refl.
+  rewrite Eid, Eh, bytes_eqb_refl. cbn [negb]. rewrite Ho. cbn [snd]. rewrite bytes_eqb_refl. cbn [negb].
+  apply id_matches_eq. split; [rewrite <- Eid; exact Eih | exact Eip].
 Qed.
 
 (* ------------------------------------------------------------------ BlockchainInfo *)
 
 Definition Consistent_meta (o : oracle) (om : option meta) : Prop :=
   exists m l, om = Some m /\ o_verify o (h_height (m_header m)) = Some l /\
-    hh (m_header m) = hh (lb_header l) /\ m_id_hash m = hh (lb_header l).
+    hh (m_header m) = hh (lb_header l) /\ m_id_hash m = hh (lb_header l) /\
+    (* repair F44 *)
+    m_id_hash m = lb_id_hash l /\ m_id_parts m = lb_id_parts l.
+
+Definition meta_verified (o : oracle) (m : meta) : Prop :=
+  exists l, o_verify o (h_height (m_header m)) = Some l /\
+            hh (m_header m) = hh (lb_header l) /\
+            m_id_hash m = lb_id_hash l /\ m_id_parts m = lb_id_parts l.
 
 Lemma check_metas_sound o ms :
-  snd (check_metas hh o ms) = true ->
-  Forall (fun m => exists l, o_verify o (h_height (m_header m)) = Some l /\
-                             hh (m_header m) = hh (lb_header l)) ms.
+  snd (check_metas hh o ms) = true -> Forall (meta_verified o) ms.
 Proof.
-  induction ms as [|m ms IH]; cbn; intro R; [constructor |].
+  induction ms as [|m ms IH]; cbn [check_metas]; intro R; [constructor |].
   destruct (o_verify o (h_height (m_header m))) as [l|] eqn:El; [| discriminate].
-  destruct (bytes_eqb (hh (m_header m)) (hh (lb_header l))) eqn:Eh; [| discriminate].
-  destruct (check_metas hh o ms) as [cs ok]; cbn in *.
-  constructor; [exists l; split; [exact El | apply beq_true; exact Eh] | apply IH; exact R].
+  destruct (bytes_eqb (hh (m_header m)) (hh (lb_header l))) eqn:Eh; cbn [andb] in R; [| discriminate].
+  destruct (id_matches l (m_id_hash m) (m_id_parts m)) eqn:Ei; [| discriminate].
+  destruct (check_metas hh o ms) as [cs ok]; cbn [snd] in *.
+  apply id_matches_eq in Ei as [Ei1 Ei2].
+  constructor; [exists l; repeat split; auto; apply beq_true; exact Eh | apply IH; exact R].
 Qed.
 
 Lemma metas_lift o metas :
   forallb (fun om => match om with Some m => meta_validate_basic hh m | None => false end) metas = true ->
-  Forall (fun m => exists l, o_verify o (h_height (m_header m)) = Some l /\
-                             hh (m_header m) = hh (lb_header l)) (some_metas metas) ->
+  Forall (meta_verified o) (some_metas metas) ->
   Forall (Consistent_meta o) metas.
 Proof.
   induction metas as [|om metas IH]; cbn; intros V F; [constructor |].
   apply andb_true_iff in V as [V1 V2]. destruct om as [m|]; [| discriminate].
-  cbn in F. inversion F as [| ? ? (l & El & Eh) F']; subst.
+  cbn in F. inversion F as [| ? ? (l & El & Eh & Ei1 & Ei2) F']; subst.
   constructor; [| apply IH; assumption].
   exists m, l. repeat split; auto.
   unfold meta_validate_basic in V1. destruct (m_id_ok m); cbn in V1; [| discriminate].
@@ -174,12 +206,15 @@ Qed.
 
 Definition Honest_meta (o : oracle) (m : meta) : Prop :=
   m_id_ok m = true /\ m_id_hash m = hh (m_header m) /\
-  exists l, o_verify o (h_height (m_header m)) = Some l /\ m_header m = lb_header l.
+  exists l, o_verify o (h_height (m_header m)) = Some l /\ m_header m = lb_header l /\
+            m_id_hash m = lb_id_hash l /\ m_id_parts m = lb_id_parts l.
 
 Lemma check_metas_complete o ms : Forall (Honest_meta o) ms -> snd (check_metas hh o ms) = true.
 Proof.
-  induction 1 as [| m ms (_ & _ & l & El & Eh) _ IH]; cbn; [reflexivity |].
-  rewrite El, Eh, bytes_eqb_refl. destruct (check_metas hh o ms); exact IH.
+  induction 1 as [| m ms (_ & _ & l & El & Eh & Ei1 & Ei2) _ IH]; cbn [check_metas]; [reflexivity |].
+  rewrite El, Eh, bytes_eqb_refl.
+  assert (id_matches l (m_id_hash m) (m_id_parts m) = true) as -> by (apply id_matches_eq; auto).
+  cbn [andb]. destruct (check_metas hh o ms); exact IH.
 Qed.
 
 (* honest metas — each the verified header of its height — are relayed *)
@@ -306,6 +341,39 @@ Proof.
   rewrite Ho. cbn [snd]. rewrite Hd, served_proof_validates by exact Hi. cbn [negb].
   cbn [txs_proof tp_data tp_proof]. rewrite !bytes_eqb_refl. cbn [negb].
   unfold proof_of; cbn [pf_index]. apply Z.eqb_refl.
+Qed.
+
+(* ------------------------------------------------------------------ TxSearch (repair F42) *)
+
+Definition Consistent_search (o : oracle) (rs : list (option rtx)) : Prop :=
+  Forall (fun x => exists r, x = Some r /\ Consistent_tx o r) rs.
+
+Lemma check_txs_sound o rs : snd (check_txs H o rs) = true -> Consistent_search o rs.
+Proof.
+  induction rs as [|[r|] rs IH]; cbn [check_txs]; intro R; [constructor | | discriminate].
+  destruct (relay_tx H o r) as [cs ok] eqn:Er. destruct ok; [| discriminate].
+  constructor.
+  - exists r; split; [reflexivity |]. apply relay_tx_sound. rewrite Er; reflexivity.
+  - apply IH. destruct (check_txs H o rs); exact R.
+Qed.
+
+Lemma relay_search_sound o rs : snd (relay_search H o true rs) = true -> Consistent_search o rs.
+Proof. apply check_txs_sound. Qed.
+
+(* the transactions of verified blocks, each answered the way rpc/core builds the answer (any
+   selection, any order, any number of them), are relayed *)
+Definition Honest_result (o : oracle) (x : option rtx) : Prop :=
+  exists l txs ht i, 0 < ht /\ (i < length txs)%nat /\ o_verify o ht = Some l /\
+    h_data_hash (lb_header l) = txs_root H txs /\ x = Some (honest_tx txs ht i).
+
+Lemma relay_search_complete o prove rs :
+  Forall (Honest_result o) rs -> snd (relay_search H o prove rs) = true.
+Proof.
+  unfold relay_search. destruct prove; [| reflexivity].
+  induction 1 as [| x rs (l & txs & ht & i & Hh & Hi & Ho & Hd & ->) _ IH]; cbn [check_txs]; [reflexivity |].
+  pose proof (relay_tx_complete o l txs ht i Hh Hi Ho Hd) as C.
+  destruct (relay_tx H o (honest_tx txs ht i)) as [cs ok]; cbn [snd] in C; subst ok.
+  destruct (check_txs H o rs); exact IH.
 Qed.
 
 (* ------------------------------------------------------------------ ABCIQuery *)
